@@ -64,7 +64,7 @@ ASSUMPTIONS = [
     "shipped data are judged against ref/families.py (pinned by OEIS sequences) with the library's documented conventions for n <= 2",
 ]
 EXPECTED_PROBES = ["name_written_twice", "read_never_written", "torn_write", "crash_fired", "error_fired", "power_loss_dirty",
-                   "load_after_restart", "load_absent_stores", "chdir", "realfs_run", "from_db_union", "concurrent_tasks"]
+                   "load_after_restart", "load_absent_stores", "chdir", "realfs_run", "from_db_union", "concurrent_tasks", "interrupted_call", "real_make_dfa"]
 
 _STATE = {"prepared": False, "dfa_memo": {}, "orig": {}}
 PREDS = {
@@ -80,6 +80,9 @@ PREDS = {
     "first_is_max": lambda p: len(p) > 0 and p[0] == len(p) - 1,
     "inv_mod3": lambda p: sum(1 for i in range(len(p)) for j in range(i + 1, len(p)) if p[i] > p[j]) % 3 == 0,
     "mix1": lambda p: sum(v * (i + 1) for i, v in enumerate(p)) % 3 == 1,
+    # properties that answer by truthiness (a count, None for "no"), as user functions do
+    "truthy_inversions": lambda p: sum(1 for i in range(len(p)) for j in range(i + 1, len(p)) if p[i] > p[j]),
+    "true_or_none": lambda p: True if (len(p) and p[0] == 0) else None,
     "all": lambda p: True,
     "none": lambda p: False,
 }
@@ -123,9 +126,30 @@ def prepare(tier):
     real = pin.make_dfa_for_perm
     memo = _STATE["dfa_memo"]
     maxlen = 3 if tier == "quick" else 4
-    for n in range(maxlen + 1):
-        for p in permutations(range(n)):
-            memo[p] = real(pm.Perm(p))
+
+    def compute_table():
+        # automata-lib automata cannot be unpickled (immutable): ship their five parts
+        res = {}
+        for n in range(maxlen + 1):
+            for p in permutations(range(n)):
+                d = real(pm.Perm(p))
+                res[p] = (set(d.states), set(d.input_symbols), {q: dict(t) for q, t in d.transitions.items()},
+                          d.initial_state, set(d.final_states), bool(getattr(d, "allow_partial", False)))
+        return res
+
+    # in a forked child: whatever tables the computation fills inside the library must not be
+    # pre-filled in the process the histories are forked from
+    from sim import driver  # pylint: disable=import-outside-toplevel
+
+    status, table = driver.in_forked_child(compute_table)
+    if status != "ok":
+        raise core.HarnessError("tabulating the fresh automata failed:\n" + str(table))
+    from automata.fa.dfa import DFA  # pylint: disable=import-outside-toplevel
+
+    for p, (states, symbols, trans, init, finals, partial) in table.items():
+        memo[p] = DFA(states=states, input_symbols=symbols, transitions=trans, initial_state=init,
+                      final_states=finals, allow_partial=partial)
+    _STATE["real_make_dfa"] = real
 
     def memo_make(cls, perm):  # pylint: disable=unused-argument
         key = tuple(perm)
@@ -134,8 +158,20 @@ def prepare(tier):
         return memo[key]
 
     _STATE["orig"]["make_dfa_for_perm"] = pin.__dict__.get("make_dfa_for_perm")
-    pin.make_dfa_for_perm = classmethod(memo_make)
+    _STATE["stub"] = classmethod(memo_make)
+    pin.make_dfa_for_perm = _STATE["stub"]
     _STATE["prepared"] = True
+
+
+def _use_real_make_dfa(flag):
+    """Most histories answer make_dfa_for_perm from the table (speed); some run the real
+    function, so that what it does to process-wide tables is part of the simulation."""
+    _mb, mp = _modules()
+    pin = mp.PinWords
+    if flag and _STATE["orig"].get("make_dfa_for_perm") is not None:
+        pin.make_dfa_for_perm = _STATE["orig"]["make_dfa_for_perm"]
+    else:
+        pin.make_dfa_for_perm = _STATE["stub"]
 
 
 # --- shipped data (complete enumeration) -------------------------------------------------
@@ -211,9 +247,38 @@ def check_shipped(stem, family, kind, maxlen, n, first=None):
     return pairs, None
 
 
+def _shipped_reread(stem):
+    """A caller that edits the dictionaries it was given must not change what the next
+    caller reads from the same shipped file."""
+    mb, _ = _modules()
+    path = os.path.join(_resources_dir(), stem)
+    with contextlib.redirect_stdout(io.StringIO()):
+        first = mb.read_bisc_file(path)
+        if not isinstance(first, dict) or not first:
+            return None
+        snapshot = {k: [tuple(p) for p in v] for k, v in first.items()}
+        for lst in first.values():
+            if isinstance(lst, list):
+                del lst[len(lst) // 2:]
+        first.pop(max(first), None)
+        second = mb.read_bisc_file(path)
+    if not isinstance(second, dict) or {k: [tuple(p) for p in v] for k, v in second.items()} != snapshot:
+        return ("shipped_wrong", {"file": stem + ".json", "what": "reread_differs"},
+                f"{stem}.json: a second read_bisc_file after the first result was edited in place returns different data")
+    return None
+
+
 def _shipped_task(arg):
     stem, family, kind, maxlen, levels, first = arg
     pairs = 0
+    if first is None and levels and levels[0] == 0 and os.path.getsize(os.path.join(_resources_dir(), stem + ".json")) < 400_000:
+        try:
+            bad = _shipped_reread(stem)
+        except Exception as exc:  # pylint: disable=broad-except
+            bad = ("shipped_wrong", {"file": stem + ".json", "what": "reread_exception"}, f"{type(exc).__name__}: {exc}")
+        _FILE_CACHE.clear()
+        if bad is not None:
+            return 0, arg, "reread", bad
     for n in levels:
         cnt, bad = check_shipped(stem, family, kind, maxlen, n, first)
         pairs += cnt
@@ -350,7 +415,7 @@ def gen_concurrent(rng, tier):
             else:
                 ops.append({"op": "read", "name": rng.choice(names), "n": rng.randint(0, 2), "which": rng.choice(["good", "bad"])})
         threads.append({"ops": ops})
-    return {"kind": "concurrent", "fs": "sim", "threads": threads, "perms": perms,
+    return {"kind": "concurrent", "fs": "sim", "threads": threads, "perms": perms, "real_dfa": rng.random() < 0.4,
             "schedule": {"mode": "policy", "p": rng.choice([0.1, 0.3, 0.6, 0.9]), "seed": rng.getrandbits(48)}}
 
 
@@ -393,6 +458,16 @@ def cases(rng, tier):
     yield base
     trace = _STATE.get("last_trace") or []
     base_obs = _STATE.get("last_obs")
+    if rng.random() < 0.12:
+        # the same history with the real make_dfa_for_perm (not the table) and with calls
+        # interrupted part-way: what the library keeps in process-wide tables is now part of it
+        ops_i = copy.deepcopy(ops)
+        for o in ops_i:
+            if o["op"] in ("store", "load", "from_db", "create_db", "write", "read") and rng.random() < 0.3:
+                # blind (any executed line) or guided (right after a line that changed
+                # process-wide library state, found by a dry run in a forked child)
+                o["interrupt"] = int(10 ** rng.uniform(0, 5.6)) if rng.random() < 0.4 else {"guided": round(rng.random(), 3)}
+        yield {"kind": "history", "fs": "sim", "ops": ops_i, "faults": [], "real_dfa": True}
     if rng.random() < (0.12 if tier == "quick" else 0.06):
         # validation of the stub: the same history (a power loss cannot be staged
         # on a real directory, so without those ops) on simfs and on a real
@@ -475,6 +550,16 @@ def _basis_arg(perms, cont):
     return list(perms)
 
 
+def _fresh(pm, perm):
+    """The reference automaton of a permutation: from the table computed once (in a
+    separate process) with the real function."""
+    key = tuple(perm)
+    memo = _STATE["dfa_memo"]
+    if key not in memo:
+        memo[key] = _STATE["real_make_dfa"](pm.Perm(key))
+    return memo[key]
+
+
 def _plain_dataset(d):
     return {int(k): [tuple(p) for p in v] for k, v in d.items()}
 
@@ -489,7 +574,11 @@ def execute(case):
         out = core.Outcome()
         log = core.EventLog()
         _FILE_CACHE.clear()
-        _cnt, bad = check_shipped(case["file"], case["family"], case["which"], case["maxlen"], case["n"] or 0, case.get("first"))
+        if case.get("n") == "reread":
+            bad = _shipped_reread(case["file"])
+            _cnt = 0
+        else:
+            _cnt, bad = check_shipped(case["file"], case["family"], case["which"], case["maxlen"], case["n"] or 0, case.get("first"))
         log.add("shipped", case["file"], case["n"], bad[0] if bad else None)
         if bad is not None:
             out.violation = core.Violation(*bad)
@@ -498,6 +587,29 @@ def execute(case):
     if case.get("kind") == "concurrent":
         return _execute_concurrent(case)
     return _execute_history(case)
+
+
+def _library_call(mb, pin, pm, op, fresh):
+    kind = op["op"]
+    if kind == "write":
+        return mb.write_bisc_files(op["n"], prop_func(op["pred"]), op["name"])
+    if kind == "read":
+        return ["v", mb.read_bisc_file(f"{op['name']}_{op['which']}_len{op['n']}")]
+    if kind == "store":
+        perm = pm.Perm(op["perm"])
+        if op.get("with_dfa"):
+            pin.store_dfa_for_perm(perm, fresh(op["perm"]))
+        else:
+            pin.store_dfa_for_perm(perm)
+        return ["v", None]
+    if kind == "load":
+        return ["v", pin.load_dfa_for_perm(pm.Perm(op["perm"]))]
+    if kind == "from_db":
+        return ["v", pin.make_dfa_for_basis_from_db(_basis_arg([pm.Perm(p) for p in op["basis"]], op.get("cont", "list")))]
+    if kind == "create_db":
+        pin.create_dfa_db_for_length(op["n"])
+        return ["v", None]
+    raise ValueError(kind)
 
 
 def _execute_history(case):
@@ -523,6 +635,9 @@ def _execute_history(case):
                 cc()
 
     clear_memos()
+    _use_real_make_dfa(bool(case.get("real_dfa")))
+    if case.get("real_dfa"):
+        out.probe("real_make_dfa")
     # model: abs path -> {"ack": dataset|None, "maybe": [datasets], "history": [datasets], "clean": bool}
     files = {}
     dfas = {}  # abs path of the automaton file -> "ok" | "maybe"
@@ -540,7 +655,7 @@ def _execute_history(case):
         return fs.abspath(f"dfa_db/S{len(perm)}/{''.join(str(i) for i in perm)}.txt")
 
     def fresh(perm):
-        return pin.make_dfa_for_perm(pm.Perm(perm))
+        return _fresh(pm, perm)
 
     def check_dfa(got, perms, strict, opidx, what):
         """got: ("v", dfa) | ("exc", ...).  perms: list of perms whose union is expected."""
@@ -573,9 +688,36 @@ def _execute_history(case):
             crashed = False
             buf = io.StringIO()
             result = None
+            opened_before = len(getattr(fs, "opened_for_writing", []))
+            interrupted = False
             try:
                 with contextlib.redirect_stdout(buf):
-                    if kind == "write":
+                    if op.get("interrupt") and not real and kind in ("write", "read", "store", "load", "from_db", "create_db"):
+                        # the call is interrupted at a seeded executed line of library code
+                        # (Ctrl-C, a signal ...): the process lives on, with whatever the call had
+                        # done to files and to process-wide tables
+                        from sim import histsim  # pylint: disable=import-outside-toplevel
+
+                        sub = dict(op)
+                        del sub["interrupt"]
+                        pref = [os.path.join(core.repo_dir(), "permuta") + os.sep]
+                        at = op["interrupt"]
+                        if isinstance(at, dict):
+                            # right after a line that changed process-wide library state
+                            at = histsim.guided_interrupt_at(lambda: _library_call(mb, pin, pm, dict(sub), fresh), pref, at["guided"])
+                            out.probe("guided_interrupt" if at else "guided_interrupt_no_state_change")
+                        status, res, _n = histsim.run_interruptible(
+                            lambda: _library_call(mb, pin, pm, sub, fresh), at or 10 ** 9, pref)
+                        if status == "interrupted":
+                            interrupted = True
+                            out.fault("interrupted_call")
+                            out.probe("interrupted_call")
+                            out.nontrivial = True
+                        else:
+                            result = res
+                    elif kind in ("write", "read", "store", "load", "from_db", "create_db"):
+                        result = _library_call(mb, pin, pm, op, fresh)
+                    elif kind == "write":
                         pred = PREDS[op["pred"]]
                         result = mb.write_bisc_files(op["n"], prop_func(op["pred"]), op["name"])
                     elif kind == "read":
@@ -630,7 +772,16 @@ def _execute_history(case):
             except Exception as exc:  # pylint: disable=broad-except
                 result = ["exc", type(exc).__name__, str(exc)[:160]]
             new_faults = fs.fired[fired_before:]
-            faulted = bool(new_faults) or crashed
+            faulted = bool(new_faults) or crashed or interrupted
+            if interrupted:
+                for wpath in fs.opened_for_writing[opened_before:]:
+                    if "dfa_db" in wpath:
+                        if dfas.get(wpath) != "ok":
+                            dfas[wpath] = "maybe"
+                    else:
+                        fm = fmodel(wpath)
+                        fm["clean"] = False
+                obs.append((kind, idx, "interrupted"))
             for f in new_faults:
                 out.fault(f"{f['kind']}@{f['at']}")
                 out.probe("crash_fired" if f["kind"] == "crash" else "error_fired")
@@ -664,13 +815,15 @@ def _execute_history(case):
                         dfas[f["path"]] = "maybe"
 
             # ---- model update and oracle --------------------------------------
-            if kind == "write":
+            if interrupted and kind != "write":
+                pass
+            elif kind == "write":
                 paths = {w: fs.abspath(f"{op['name']}_{w}_len{op['n']}.json") for w in ("good", "bad")}
                 pred = PREDS[op["pred"]]
                 datasets = {"good": {}, "bad": {}}
                 for n in range(op["n"] + 1):
                     allp = list(permutations(range(n)))
-                    datasets["good"][n] = [p for p in allp if pred(p)]
+                    datasets["good"][n] = [p for p in allp if pred(p)]  # by truthiness
                     datasets["bad"][n] = [p for p in allp if not pred(p)]
                 for w, p in paths.items():
                     m = fmodel(p)
@@ -688,7 +841,8 @@ def _execute_history(case):
                         m["clean"] = True
                 if isinstance(result, list) and result[0] == "exc" and not faulted:
                     violate("write_failed", {"type": result[1]}, f"write_bisc_files raised {result[1]}: {result[2]} without any injected fault", idx)
-                obs.append(("write", idx, "crash" if crashed else "ok"))
+                if not interrupted:
+                    obs.append(("write", idx, "crash" if crashed else "ok"))
             elif kind == "read" and not crashed:
                 p = fs.abspath(f"{op['name']}_{op['which']}_len{op['n']}.json")
                 m = files.get(p)
@@ -709,6 +863,12 @@ def _execute_history(case):
                         got = _plain_dataset(got)
                         shown = ("data", core.canon(got))
                 obs.append(("read", idx, shown))
+                if result[0] == "v" and isinstance(result[1], dict):
+                    # the caller edits what it was given; later reads must not be affected
+                    for lst in result[1].values():
+                        if isinstance(lst, list):
+                            del lst[:]
+                    result[1].clear()
                 if m is None:
                     out.probe("read_never_written")
                     if got is not None:
@@ -772,7 +932,7 @@ def _execute_history(case):
             for mod, sm in saved:
                 simfs.remove_seams(mod, sm)
         clear_memos()
-    if not real and not case.get("faults"):
+    if not real and not case.get("faults") and not case.get("real_dfa"):
         _STATE["last_trace"] = list(fs.trace)
         _STATE["last_obs"] = core.canon(obs)
     if real and case.get("expect_obs") is not None and not violations:
@@ -832,6 +992,7 @@ def _execute_concurrent(case):
             cc()
 
     clear_memos()
+    _use_real_make_dfa(bool(case.get("real_dfa")))
     sdesc = case["schedule"]
     if sdesc["mode"] == "segments":
         policy = threadsim.SegmentPolicy(sdesc["segments"])
@@ -848,7 +1009,7 @@ def _execute_concurrent(case):
     results = {}
 
     def fresh(perm):
-        return pin.make_dfa_for_perm(pm.Perm(perm))
+        return _fresh(pm, perm)
 
     def judge_dfa(res, perms, where):
         if res[0] != "v":
@@ -885,7 +1046,7 @@ def _execute_concurrent(case):
                     elif kind == "write":
                         pred = PREDS[op["pred"]]
                         for w in ("good", "bad"):
-                            ds = {n: [p for p in permutations(range(n)) if pred(p) == (w == "good")] for n in range(op["n"] + 1)}
+                            ds = {n: [p for p in permutations(range(n)) if bool(pred(p)) == (w == "good")] for n in range(op["n"] + 1)}
                             written.setdefault(fs.abspath(f"{op['name']}_{w}_len{op['n']}.json"), []).append(ds)
                         mb.write_bisc_files(op["n"], prop_func(op["pred"]), op["name"])
                         r = ["v", None]
